@@ -1,4 +1,5 @@
 import PyaModel.Proofs.C17
+import PyaModel.Generated.FormatCaches
 /-!
 # Props/C17 — format-string diagnostics agree with CPython's formatter
 
@@ -223,6 +224,78 @@ example :
     D17_bytesMapping true t a = false ∧ D17_pctOnlyMapping true t a = false ∧
     cpyPercent true t a = .ok .bytes ∧ (pyaPercent true t a).reports = false ∧
     (pyaPercent true t a).ty = .bytes := by decide
+
+/-! ## Union-typed operands and whole programs (history independence) -/
+
+/-- **C17, `%`, union-typed operand, soundness (partial).** If the right operand is a union of
+literals and CPython raises for one member that is outside the four "missed error" classes,
+pyanalyze reports on the expression. -/
+theorem percent_union_reports_if_raises_partial (b : Bool) (t : List Char) (as : List Arg) (a : Arg)
+    (ha : a ∈ as)
+    (h2 : D17_parenKey t = false) (h3 : D17_nonStrKey b t a = false)
+    (h4 : D17_bytesMapping b t a = false) (h5 : D17_hugeWidthPrec t = false)
+    (hr : cpyPercent b t a = .raises) : (pyaPercentU b t as).reports = true := by
+  have hm := percent_reports_if_raises_partial b t a h2 h3 h4 h5 hr
+  simp only [POut.reports, Bool.not_eq_true', List.isEmpty_eq_false_iff] at hm ⊢
+  cases he : (pyaPercent b t a).errs with
+  | nil => exact absurd he hm
+  | cons e es =>
+    have := union_member_subset b t as a ha e (by simp [he])
+    intro hnil; rw [hnil] at this; cases this
+
+/-- **C17, `%`, union-typed operand, completeness (partial).** If CPython succeeds for every member
+of the union and every member is well-formed and outside the six "false report" classes, every
+message on the expression is one of the two documented lint rules. -/
+theorem percent_union_silent_if_ok_partial (b : Bool) (t : List Char) (as : List Arg) (hne : as ≠ [])
+    (d2 : D17_dotNoDigits t = false) (d3 : D17_emptyKey t = false) (d4 : D17_parenKey t = false)
+    (hmem : ∀ a ∈ as, a.wf = true ∧ D17_cRangeStr b t a = false ∧ D17_pctOnlyMapping b t a = false ∧
+      D17_bytesMapping b t a = false ∧ ∃ ty, cpyPercent b t a = .ok ty) :
+    ∀ e ∈ (pyaPercentU b t as).errs, e.lintOnly = true := by
+  intro e he
+  rcases union_from_members b t as hne e he with rfl | ⟨a, ha, hea⟩
+  · rfl
+  · obtain ⟨hwf, d1, d6, d7, ty, hok⟩ := hmem a ha
+    exact percent_silent_if_ok_partial b t a ty hwf d1 d2 d3 d4 d6 d7 hok e hea
+
+/-- **History independence (model).** The verdict for an occurrence inside a program is the
+verdict for that occurrence checked alone, whatever precedes or follows it — the model is a pure
+function of (template, operand). True by construction; the `prog` correspondence streams compare
+the *implementation's* behaviour on whole programs (same template reused with superset / exact /
+missing keys in every order, unions, repeated runs in one process, fresh-process baseline) with
+this map-over-occurrences. -/
+theorem program_occurrence_independent (pre post : List Occ) (o : Occ) :
+    (pyaProgram (pre ++ o :: post))[pre.length]? = some (pyaOcc o) := by
+  simp [pyaProgram]
+
+/-- Checking a program twice in the same process gives the same verdicts twice. -/
+theorem program_repeat (p : List Occ) : pyaProgram (p ++ p) = pyaProgram p ++ pyaProgram p := by
+  simp [pyaProgram]
+
+/-- The verdicts of a program do not depend on the order of its occurrences (as a permutation of
+the per-occurrence verdicts). -/
+theorem program_reverse (p : List Occ) : pyaProgram p.reverse = (pyaProgram p).reverse := by
+  simp [pyaProgram]
+
+/-- **Obligation over the live source** (`Generated/FormatCaches.lean`, regenerated on every run by
+an AST scan of `pyanalyze/format_strings.py`): no function or method of the format-string checker
+sits under a caching decorator, the only module-level mutable containers are the two constant
+conversion sets, and the only attribute store on `self` is the parser cursor. This is what the
+purity of `pyaProgram` rests on; a new cache breaks this obligation and triggers the widened
+search. -/
+theorem format_checker_is_cache_free :
+    liveCaches = [] ∧
+    liveModuleMutables = ["_FORMAT_STRING_CONVERSIONS", "_NUMERIC_CONVERSION_TYPES"] ∧
+    liveSelfStores = ["_ParserState.next:self.current_index"] := by decide
+
+/-- Regression for the seeded change C17-2: `'%(name)s' % {'name': 1, 'size': 2}` followed by
+`'%(name)s' % {'name': 1}` — both silent, in either order, and as a union. -/
+theorem program_regression_extra_key :
+    let t := ['%', '(', 'n', ')', 's']
+    let sup := Arg.dict [(.str ['n'], .sc (.int 1)), (.str ['z'], .sc (.int 2))]
+    let ex := Arg.dict [(.str ['n'], .sc (.int 1))]
+    (pyaProgram [⟨false, t, [sup]⟩, ⟨false, t, [ex]⟩]).map (·.errs) = [[], []] ∧
+    (pyaOcc ⟨false, t, [sup, ex]⟩).errs = [] ∧
+    cpyPercent false t sup = .ok .str ∧ cpyPercent false t ex = .ok .str := by decide
 
 /-! ## `str.format` -/
 
